@@ -7,10 +7,8 @@ import FlVerif.Lemmas.ConsequentLoad
 
 The translated code keeps the variable *object* in a proposition and reaches the proposition under construction through
 the alias `proposition` (last element of `conclusions`); the model keeps the variable *name* and looks it up again
-(`lastTerms`), and updates the last conclusion with `updLast`.  The two differ in one intermediate step: Python treats
-an output variable without terms as false (`Variable.__len__`), so the code rejects its name at once, whereas the
-model accepts the name and fails later, at the latest in the final-state check, because no term can follow
-(`cLoop_dead`).  The results are the same. -/
+(`lastTerms`), and updates the last conclusion with `updLast`.  Python's `if variable:` (a variable without terms is
+false, `Variable.__len__`) is `Py.Load.varTruthy` in the code and part of `EngineInfo.findOut` in the model. -/
 
 set_option linter.unusedSimpArgs false
 
@@ -37,44 +35,26 @@ open Lang Gen.Code Py.Load
 /-- the conclusion of the model that a proposition object of the translated code stands for -/
 def propConc (p : Proposition) : Conclusion := ⟨p.variable_.name, p.hedges, p.term_⟩
 
-theorem findOut_eq_varGet (e : EngineInfo) (n : String) : e.findOut n = varGet (outputs e) n := rfl
+theorem findOut_eq_varGet (e : EngineInfo) (n : String) :
+    e.findOut n = (varGet (outputs e) n).filter VarInfo.truthy := rfl
+
+theorem varTruthy_eq (o : Option VarInfo) : varTruthy o = (o.filter VarInfo.truthy).isSome := by
+  cases o with
+  | none => rfl
+  | some v => cases h : v.terms.isEmpty <;> simp [varTruthy, VarInfo.truthy, Option.filter, h]
+
+/-- Python's truth value of `output_variables.get(token)` is "the model finds the name" -/
+theorem varTruthy_findOut (e : EngineInfo) (n : String) : varTruthy (varGet (outputs e) n) = (e.findOut n).isSome := by
+  rw [varTruthy_eq, findOut_eq_varGet]
+
+theorem varGet_of_findOut {e : EngineInfo} {n : String} {v : VarInfo} (h : e.findOut n = some v) :
+    varGet (outputs e) n = some v := by
+  rw [findOut_eq_varGet, Option.filter_eq_some_iff] at h
+  exact h.1
 
 theorem findOut_name {e : EngineInfo} {n : String} {v : VarInfo} (h : e.findOut n = some v) : v.name = n := by
-  unfold EngineInfo.findOut at h
-  have := List.find?_some h
+  have := List.find?_some (varGet_of_findOut h)
   simpa using this
-
-theorem lastTerms_updLast (e : EngineInfo) (f : Conclusion → Conclusion) (hf : ∀ c, (f c).v = c.v)
-    (cs : List Conclusion) : lastTerms e (updLast f cs) = lastTerms e cs := by
-  by_cases h : cs = []
-  · subst h; rfl
-  · obtain ⟨ps, p, rfl⟩ := Py.exists_snoc cs h
-    rw [updLast_snoc, lastTerms_snoc, lastTerms_snoc, hf]
-
-/-- once the variable of the conclusion under construction has no terms, the loop of the model cannot reach an
-    accepting state any more -/
-theorem cLoop_dead (e : EngineInfo) : ∀ (ts : List String) (st : CFlags) (cs : List Conclusion),
-    st = cIs ∨ st = cHedgeTerm → lastTerms e cs = [] →
-    match cLoop e ts st cs with
-    | .error k => k = .syntax
-    | .ok (st', _) => (st'.and_ || st'.with_) = false
-  | [], st, cs, hst, _ => by
-    rcases hst with rfl | rfl <;> simp [cLoop, cIs, cHedgeTerm]
-  | t :: ts, st, cs, hst, hl => by
-    rcases hst with rfl | rfl
-    · by_cases ht : t = "is"
-      · have := cLoop_dead e ts cHedgeTerm cs (Or.inr rfl) hl
-        simpa only [cLoop, cStep, cIs, ht, Bool.false_and, Bool.true_and, beq_self_eq_true, if_true, if_false,
-          Bool.false_eq_true] using this
-      · simp only [cLoop, cStep, cIs, ht, Bool.false_and, Bool.true_and, beq_iff_eq, if_true, if_false,
-          Bool.false_eq_true]
-    · cases hh : e.hedges.contains t
-      · simp only [cLoop, cStep, cHedgeTerm, hh, hl, Bool.false_and, Bool.true_and, if_true, if_false,
-          Bool.false_eq_true, List.contains_nil]
-      · have := cLoop_dead e ts cHedgeTerm (updLast (fun c => { c with hs := c.hs ++ [t] }) cs) (Or.inr rfl)
-          (by rw [lastTerms_updLast e (fun c => { c with hs := c.hs ++ [t] }) (fun _ => rfl)]; exact hl)
-        simpa only [cLoop, cStep, cHedgeTerm, hh, Bool.false_and, Bool.true_and, if_true, if_false,
-          Bool.false_eq_true] using this
 
 /-- what the state of the translated loop and the configuration of the model's loop have in common -/
 structure CRel (e : EngineInfo) (st : CFlags) (cs : List Conclusion) (σ : Consequent_load.S) : Prop where
@@ -106,27 +86,20 @@ theorem code_cStep_var (e : EngineInfo) (text t : String) (ts : List String)
   obtain ⟨hs1, hn⟩ := h.state_var
   obtain ⟨hc, ho, hf, -, hl⟩ := h
   simp only [Consequent_load.loop1, cLoop, cStep, cVariable, hs1, ho, Nat.reduceAnd, Nat.reduceBNe, ↓reduceIte,
-    Bool.true_and, Bool.false_and, findOut_eq_varGet, Bool.false_eq_true, if_false]
-  cases hv : varGet (outputs e) t with
-  | none => simp only [Option.isSome_none, varTruthy, Bool.false_eq_true, if_false, CAgree, and_self]
+    Bool.true_and, Bool.false_and, varTruthy_findOut, Bool.false_eq_true, if_false]
+  cases hv : e.findOut t with
+  | none => simp only [Option.isSome_none, Bool.false_eq_true, if_false, CAgree, and_self]
   | some v =>
-    have hname : v.name = t := findOut_name (e := e) hv
-    cases hterms : v.terms.isEmpty
-    · simp only [Option.isSome_some, if_true, varTruthy, hterms, Bool.not_false, Py.deref, bind, Except.bind]
-      refine ih cIs _ _ ⟨?_, rfl, ?_, Or.inr ⟨Or.inl ⟨rfl, rfl⟩, by simp⟩, fun _ => rfl⟩
-      · simp only [List.map_append, hc, List.map_cons, List.map_nil, propConc, hname]
-      · intro p hp
-        rcases List.mem_append.mp hp with hp | hp
-        · exact hf p hp
-        · rw [List.mem_singleton] at hp; subst hp
-          show e.findOut v.name = some v
-          rw [hname]; exact hv
-    · simp only [Option.isSome_some, if_true, varTruthy, hterms, Bool.not_true, Bool.false_eq_true, if_false, CAgree,
-        true_and]
-      have hd := cLoop_dead e ts cIs (cs ++ [⟨t, [], none⟩]) (Or.inl rfl) (by
-        rw [lastTerms_snoc, findOut_eq_varGet, hv]
-        simpa using hterms)
-      exact hd
+    have hname : v.name = t := findOut_name hv
+    simp only [Option.isSome_some, if_true, varGet_of_findOut hv, Py.deref, bind, Except.bind]
+    refine ih cIs _ _ ⟨?_, rfl, ?_, Or.inr ⟨Or.inl ⟨rfl, rfl⟩, by simp⟩, fun _ => rfl⟩
+    · simp only [List.map_append, hc, List.map_cons, List.map_nil, propConc, hname]
+    · intro p hp
+      rcases List.mem_append.mp hp with hp | hp
+      · exact hf p hp
+      · rw [List.mem_singleton] at hp; subst hp
+        show e.findOut v.name = some v
+        rw [hname]; exact hv
 
 theorem CRel.state_is {e : EngineInfo} {cs : List Conclusion} {σ : Consequent_load.S} (h : CRel e cIs cs σ) :
     σ.state = 2 ∧ σ.conclusions ≠ [] := by
